@@ -6,7 +6,12 @@ use std::panic::{catch_unwind, AssertUnwindSafe};
 pub struct Rng(u64);
 impl Rng {
     pub fn new(seed: u64) -> Rng {
-        let mut r = Rng(seed | 1);
+        // splitmix64 finaliser, so that neighbouring seeds give unrelated streams
+        let mut z = seed.wrapping_add(0x9E37_79B9_7F4A_7C15);
+        z = (z ^ (z >> 30)).wrapping_mul(0xBF58_476D_1CE4_E5B9);
+        z = (z ^ (z >> 27)).wrapping_mul(0x94D0_49BB_1331_11EB);
+        z ^= z >> 31;
+        let mut r = Rng(if z == 0 { 1 } else { z });
         for _ in 0..8 {
             r.next();
         }
@@ -65,6 +70,9 @@ impl Emitter {
 }
 
 pub fn silence_panics() {
+    if std::env::var("HARNESS_VERBOSE").is_ok() {
+        return;
+    }
     std::panic::set_hook(Box::new(|_| {}));
 }
 
